@@ -24,26 +24,7 @@ THREAD_SPECS = [["1"], ["0"], ["64"], ["main:1"], ["default:1,1"], ["ssd:2,3"], 
 
 
 def quiescent(pid):
-    def snap():
-        out = {}
-        try:
-            for t in os.listdir("/proc/%d/task" % pid):
-                with open("/proc/%d/task/%s/stat" % (pid, t)) as f:
-                    parts = f.read().rsplit(")", 1)[1].split()
-                out[t] = (parts[0], int(parts[11]) + int(parts[12]))
-        except OSError:
-            return None
-        return out
-    a = snap()
-    time.sleep(10)
-    b = snap()
-    if not a or not b or set(a) != set(b):
-        return False
-    try:
-        kids = subprocess.run(["pgrep", "-P", str(pid)], stdout=subprocess.PIPE).stdout.split()
-    except Exception:
-        kids = []
-    return not kids and all(b[t][0] == "S" and a[t][1] == b[t][1] for t in b)
+    return common.process_quiescent(pid)
 
 
 def run_watchdog(argv, env, cwd, stdin=None, timeout=120):
